@@ -192,8 +192,14 @@ func (s *KeyStore) ListKeyRings() (rings []string, err error) {
 		s.log.WithError(err).Debug("failed to list key rings")
 		return nil, err
 	}
-	for i := range rings {
-		rings[i] = strings.TrimSuffix(rings[i], keyringSuffix)
+	// Everything else the backend stores is not a key ring: "<ring>.keyring.new" is a leftover
+	// of an interrupted update (the next update of that key ring replaces it).
+	paths := rings
+	rings = rings[:0]
+	for _, path := range paths {
+		if strings.HasSuffix(path, keyringSuffix) {
+			rings = append(rings, strings.TrimSuffix(path, keyringSuffix))
+		}
 	}
 	return rings, nil
 }
